@@ -48,6 +48,7 @@ fn main() {
         "lex" => streams::lex(&mut rng, count, &mut emit),
         "region" => streams::region(&mut rng, count, &mut emit),
         "diag" => streams::diag(&mut rng, count, &mut emit),
+        "anytext" => streams::anytext(&mut rng, count, &mut emit),
         "literal" => streams::literal(&mut rng, count, &mut emit),
         "table" => streams::table(&mut rng, count, &mut emit),
         "options" => streams::options(&mut rng, count, &mut emit),
